@@ -10,9 +10,9 @@ theorems is that the error branch of `Except Err` (`IndexError`, `StopIteration`
 `ValueError` of `list.index`, `min([])`, "Multiple transitions found!", fuel) is unreachable,
 for EVERY token list: no assumption on positions, kinds, values or order.
 
-The only assumed fact is `extractHeaders_total` (`Lemmas/AssumedHeaders.lean`, property C15:
-header extraction never raises); everything after header extraction is proved here
-(`error_only_from_headers` does not depend on any assumed lemma).
+Header extraction never raises by property C15 (`extractHeaders_total`, re-exported by
+`Lemmas/HeadersWF.lean`); everything after header extraction is proved here
+(`error_only_from_headers` does not use C15).
 -/
 namespace CL.C03
 
@@ -92,8 +92,8 @@ example : Gen.python ∈ Gen.all.map (·.2) ∧
     scanFile Gen.python pyToks = .ok [⟨[102], 1, 1, 2, 7, 2⟩, ⟨[103], 3, 1, 4, 7, 2⟩] :=
   ⟨by simp [Gen.all], scanFile_eval (by decide +kernel)⟩
 
-/-- a token list with arbitrary (unordered, repeated) positions and unbalanced braces is
-analysed without error as well (TypeScript; the result is discussed in `C05`) -/
+/-- a token list with arbitrary (unordered) positions is analysed without error as well
+(TypeScript; a Python list with unordered and repeated positions is `C05.pyUnordered`) -/
 example : ∃ ms, scanFile Gen.typescript
     [puT [123] 5 1, puT [123] 1 2, puT [125] 1 3, nmT [102] 1 4, puT [40] 1 5, puT [41] 1 6,
      opT [58] 1 7, puT [125] 1 8] = .ok ms :=
